@@ -80,10 +80,13 @@ def handle : List String → String
         let m : Meta := { sps, pps, asc }
         let (tfs, panicked) := muxFrames cfg m frames
         let model := writeStream cfg tfs
+        -- What the specification is evaluated on.  A video frame with an empty payload is not a NAL
+        -- unit: everything handed over BEFORE it must be carried faithfully (what follows is not
+        -- judged here: the packetizer's failure on it is C07's subject).  Audio frames of a stream
+        -- whose AudioSpecificConfig is unusable cannot be framed as ADTS: none may appear.
+        let judged := frames.takeWhile (fun f => !(f.media == .video && f.payload.isEmpty))
+        let judged := if asc.isSome then judged else judged.filter (fun f => f.media != .audio)
         let spec :=
-          match asc with
-          | some a =>
-            if panicked then "skip" else
             -- the audio parameters the ADTS headers must show: the generator's ground truth when the
             -- harness knows it (`truth=<aot>,<srIndex>,<chan>`), else what the real decoder reported
             let truth : Option (Nat × Nat × Nat) :=
@@ -93,14 +96,14 @@ def handle : List String → String
                 | some x, some y, some z => some (x, y, z) | _, _, _ => none
               | _ => none
             let p : IpcHub.TsSpec.Params :=
-              match truth with
-              | some (x, y, z) => { sps, pps, aot := x, srIndex := y, chanCfg := z }
-              | none =>
+              match truth, asc with
+              | some (x, y, z), _ => { sps, pps, aot := x, srIndex := y, chanCfg := z }
+              | none, some a =>
                 { sps, pps, aot := a.objectType,
                   srIndex := (if a.extSampleRate > 0 then a.extSamplingIndex else a.samplingIndex),
                   chanCfg := a.channelConfig }
-            IpcHub.TsSpec.verdict (IpcHub.TsSpec.holds p (frames.flatMap srcOf) impl)
-          | none => "skip"
+              | none, none => { sps, pps, aot := 0, srIndex := 0, chanCfg := 0 }
+            IpcHub.TsSpec.verdict (IpcHub.TsSpec.holds p (judged.flatMap srcOf) impl)
         s!"model={cmpBytes model impl} panic={boolStr panicked} spec={spec}"
     | _, _, _, _ => "bad-op"
   | "raw" :: toks =>
